@@ -1,19 +1,1 @@
-// ---- trusted: output sinks. `Rc<RefCell<dyn std::io::Write + Send>>` is rejected by Verus ("dyn with more than one trait",
-// unsizing coercion); the rewrite `dyn_write` replaces the type by this opaque sink. Clone yields a handle on the same sink.
-pub mod vio {
-use vstd::prelude::*;
-#[verifier::external_body]
-pub struct Out { _p: () }
-pub uninterp spec fn same_sink(a: Out, b: Out) -> bool;
-impl Clone for Out {
-    #[verifier::external_body]
-    fn clone(&self) -> (r: Self) ensures same_sink(*self, r) { unimplemented!() }
-}
-// writeln!(w.borrow_mut(), "error:{e}") (rewrite writeln_error): one `error:` line on that sink, or an io::Error
-#[verifier::external_body]
-pub fn error_line<E>(w: &Out, e: &E) -> std::io::Result<()> { unimplemented!() }
-// `Box<dyn Fn() -> R>` (rewrite stdin_factory): opaque; its only use is in the unverified half of go()
-#[verifier::external_body]
-#[verifier::reject_recursive_types(R)]
-pub struct StdinFactory<R> { _p: std::marker::PhantomData<R> }
-}
+//@@ include prelude/vfmt.rs
